@@ -99,6 +99,12 @@ struct Dom : CompositeBase
                 o1 = observe(wd, true, false);
                 mem_obs = observe(wmem, true, false);
                 dir_before = wd.db.directory();
+                // the stored content itself (canonical dump of every table, the library's uuid masked): the same history leaves the same rows
+                // on disk and in memory (a connection configured differently on one creation path shows here before any observer sees it)
+                {
+                    const std::string dd = wd.dump(), dm = wmem.dump();
+                    if (dd != dm) { ok = false; viol("disk_content_differs_from_memory", "same history, different stored rows on disk and in memory: " + first_diff(dm, dd)); }
+                }
                 // A tail that the exploration cannot produce (it changes no stored state): calls that throw inside the library, followed by
                 // one more successful write. If a failed call leaves a transaction open, everything written afterwards is lost on close.
                 for (auto& t : wd.db.tracks())
